@@ -170,7 +170,10 @@ Fixpoint run (h : host) (es : list ev) : host * list res :=
 (* ------------------------------------------------------------------ *)
 (* Several hosts sharing one configured range; events are tagged.      *)
 
-Inductive wev := At (h : nat) (e : ev) | Probe.
+(* DeliverRst src cid: the RST that the abandoned connect `cid` of host `src`
+   (future dropped while pending, or its host crashed) sent to its peer arrives
+   there (net/tcp/stream.rs ConnectGuard; host.rs Segment::Rst). *)
+Inductive wev := At (h : nat) (e : ev) | Probe | DeliverRst (src : nat) (cid : N).
 
 Definition enc_res (r : res) : N * N :=
   match r with
@@ -191,20 +194,56 @@ Fixpoint upd_nth {A} (k : nat) (f : A -> A) (l : list A) : list A :=
   | x :: r, S k' => x :: upd_nth k' f r
   end.
 
-Definition wstep (w : list host) (e : wev) : list host * wobs :=
+Definition loop_code : N := 99.
+
+(* an RST in flight: (sending host, connect id, destination host, key of the peer's entry) *)
+Definition rst := (nat * N * N * (N * N * N))%type.
+
+Definition rst_of (k : nat) (s : stream) : rst :=
+  let lo_ := s_rip s =? loop_code in
+  (k, s_cid s, (if lo_ then N.of_nat k else s_rip s),
+   (s_rport s, (if lo_ then loop_code else N.of_nat k), s_lport s)).
+
+(* the pending connects an event abandons *)
+Definition abandoned (k : nat) (h : host) (e : ev) : list rst :=
+  match e with
+  | ConnectCancel c => map (rst_of k) (filter (pending_on c) (streams h))
+  | Crash => map (rst_of k) (filter (fun s => s_out s && is_pending s) (streams h))
+  | _ => []
+  end.
+
+Fixpoint take_rst (src : nat) (cid : N) (l : list rst) : option rst * list rst :=
+  match l with
+  | [] => (None, [])
+  | ((s, c, t, key) as x) :: r =>
+      if Nat.eqb s src && (c =? cid) then (Some x, r)
+      else let '(o, r') := take_rst src cid r in (o, x :: r')
+  end.
+
+Definition wstate := (list host * list rst)%type.
+
+Definition wstep (ws : wstate) (e : wev) : wstate * wobs :=
+  let '(w, rs) := ws in
   match e with
   | At k e' =>
       match nth_error w k with
-      | Some h => let '(h', r) := step h e' in (upd_nth k (fun _ => h') w, ORes (enc_res r))
-      | None => (w, ORes (enc_res RBad))
+      | Some h => let '(h', r) := step h e' in
+                  ((upd_nth k (fun _ => h') w, rs ++ abandoned k h e'), ORes (enc_res r))
+      | None => (ws, ORes (enc_res RBad))
       end
-  | Probe => (w, OTables (map enc_host w))
+  | Probe => (ws, OTables (map enc_host w))
+  | DeliverRst src cid =>
+      match take_rst src cid rs with
+      | (Some (_, _, t, (l, r, p)), rs') =>
+          ((upd_nth (N.to_nat t) (fun h => fst (step h (Reset l r p))) w, rs'), ORes (enc_res RUnit))
+      | (None, _) => (ws, ORes (enc_res RBad))
+      end
   end.
 
-Fixpoint wrun (w : list host) (es : list wev) : list wobs :=
+Fixpoint wrun (ws : wstate) (es : list wev) : list wobs :=
   match es with
   | [] => []
-  | e :: r => let '(w', o) := wstep w e in o :: wrun w' r
+  | e :: r => let '(ws', o) := wstep ws e in o :: wrun ws' r
   end.
 
 Definition enc_wobs (o : wobs) : N * (N * N) * list (list N * list N * list (N * N * N) * N) :=
@@ -214,4 +253,4 @@ Definition enc_wobs (o : wobs) : N * (N * N) * list (list N * list N * list (N *
   end.
 
 Definition wrun_enc (n : nat) (l u : N) (es : list wev) :=
-  map enc_wobs (wrun (repeat (init l u) n) es).
+  map enc_wobs (wrun (repeat (init l u) n, []) es).
